@@ -18,10 +18,11 @@ Everything follows the code that exists, quirks included:
 * `empty_structured_array` returns before any assignment when `n = 0`;
 * `numpy_array_to_live_points`: `size == 0` ⇒ empty array; 1-d ⇒ one point;
   surplus columns ignored, missing columns ⇒ `IndexError`;
-* `dict_to_live_points`: the number of points is taken from the FIRST value; the
-  branch `N == 1` builds the record with `np.array([tuple])`, which (NumPy ≥ 2.x)
-  raises `ValueError` as soon as a value is a sequence — including length-one
-  arrays (see `Props/C18.lean`, `dict_roundtrip_fails_without`);
+* `dict_to_live_points`: the branch and the number of points are taken from the FIRST
+  value: a scalar first value ⇒ one record built with `np.array([tuple])` (which raises
+  `ValueError` if a later value is a sequence); a sequence first value ⇒
+  `empty_structured_array(len(first))` and field-wise assignment with broadcasting
+  (length-one sequences included, since the repair 0091c80);
 * `unstructured_view` ignores the ORDER of `names` (it builds a dtype from offsets
   and reinterprets the leading bytes of each record).
 -/
@@ -213,30 +214,27 @@ def transpose (k : Nat) : List (List V) → List (List V)
   | [] => List.replicate k []
   | row :: rest => List.zipWith (· :: ·) row (transpose k rest)
 
-/-- `dict_to_live_points(d, nsp)`; `d` in insertion order (keys are distinct: it is a dict) -/
+/-- `dict_to_live_points(d, nsp)`; `d` in insertion order (keys are distinct: it is a dict).
+The scalar branch (`np.array([tuple])`) is taken only when the FIRST value has no `__len__`;
+otherwise the number of points is the length of the first value. -/
 def dictToLivePoints (cfg : Cfg V) (r : Registry V) (d : List (String × DVal V)) (nsp : Bool) :
     Except Err (LP V) :=
   match d with
   | [] => .error .indexErr                       -- `a[0]` on the empty tuple
-  | (_, v0) :: _ =>
-    let N := match v0 with
-      | .scalar _ => 1
-      | .arr xs => xs.length
-    let keys := d.map Prod.fst
-    if N = 1 then
-      match getDtype cfg r keys nsp with
-      | .error e => .error e
-      | .ok dt =>
-        match allSome (d.map fun kv => kv.2.scalar?) with
-        | none => .error .valueErr               -- "setting an array element with a sequence"
-        | some vals => .ok ⟨dt.fields, dt.nf, [vals ++ tail cfg r nsp]⟩
-    else
-      match emptyStructured cfg r N keys nsp with
-      | .error e => .error e
-      | .ok s =>
-        match allSome (d.map fun kv => kv.2.column N) with
-        | none => .error .valueErr               -- "could not broadcast"
-        | some cols => .ok ⟨s.fields, s.nf, (transpose N cols).map (· ++ tail cfg r nsp)⟩
+  | (_, .scalar _) :: _ =>
+    match getDtype cfg r (d.map Prod.fst) nsp with
+    | .error e => .error e
+    | .ok dt =>
+      match allSome (d.map fun kv => kv.2.scalar?) with
+      | none => .error .valueErr               -- "setting an array element with a sequence"
+      | some vals => .ok ⟨dt.fields, dt.nf, [vals ++ tail cfg r nsp]⟩
+  | (_, .arr xs) :: _ =>
+    match emptyStructured cfg r xs.length (d.map Prod.fst) nsp with
+    | .error e => .error e
+    | .ok s =>
+      match allSome (d.map fun kv => kv.2.column xs.length) with
+      | none => .error .valueErr               -- "could not broadcast"
+      | some cols => .ok ⟨s.fields, s.nf, (transpose xs.length cols).map (· ++ tail cfg r nsp)⟩
 
 /-- `dataframe_to_live_points(df, nsp)`: column labels and the rows of `df.values` -/
 def dataframeToLivePoints (cfg : Cfg V) (r : Registry V) (cols : List String) (rows : List (List V))
